@@ -555,14 +555,14 @@ TABLE["C02more"] = dict(
     title="(matmul, convolution parts, sigmoid, user closures) local transpose identities",
     imports=ARR + """
 From Corgi Require Import Model.Ops Proofs.FlattenSpec Proofs.MatmulSpec Proofs.ConvSpec Proofs.DualLift
-     Proofs.LocalAdjoint Proofs.LocalAdjoint2.""",
+     Proofs.LocalAdjoint Proofs.LocalAdjoint2 Proofs.LocalAdjoint3.""",
     intro="""Same formulation as Props/C02.v.  Matmul: all four transposition pairs, all flag triples, arbitrary
 leading-dimension broadcasting, additive term of shape [cols], [rows; cols], [1; cols], [1] (flagged or not) or absent.
 Convolution is unroll_blocks ; reshape ; matmul ; expand_conv in corgi: the identities of unroll (whose transpose is the
 SUMMING roll - overlapping windows), expand (a per-image permutation) and matmul together with C01 give conv for every
 stride, filter size and batch.  Sigmoid uses the scalar law [Hsig] (the dual-number run of sigmoid has tangent
-s*(1-s)*x'), proved for the reals as Props/C02real.v's C02r_sigmoid_dual.  NOT covered: the rank-1 matmul forms
-(dot product, vector-left/right) - exercised by the correspondence and dual-number runs only.""",
+s*(1-s)*x'), proved for the reals as Props/C02real.v's C02r_sigmoid_dual.  The rank-1 matmul forms the property names
+(dot product, vector-left, vector-right) are covered too.""",
     items=[
         ("C02_matmul", "matmul_local", "matmul with additive term"),
         ("C02_matmul_no_additive_term", "matmul_local_absent", "matmul without additive term (third child is the untracked zero)"),
@@ -573,4 +573,44 @@ s*(1-s)*x'), proved for the reals as Props/C02real.v's C02r_sigmoid_dual.  NOT c
         ("C02_custom_affine", "caff_local", "user-defined a + 2b"),
         ("C02_custom_square", "csq_local", "user-defined square"),
         ("C02_roll_value", "roll_g_spec", "value of the summing roll: each image element is the sum over all windows that cover it"),
+        ("C02_dot_product", "dot_local", "rank-1 . rank-1 (the dot product) with additive term [1]"),
+        ("C02_dot_product_no_term", "dot_local_absent", "the dot product without additive term (the closure that used to panic: D13)"),
+        ("C02_vector_left", "vecl_local", "vector x matrix"),
+        ("C02_vector_left_no_term", "vecl_local_absent", "vector x matrix without additive term"),
+        ("C02_vector_right", "vecr_local", "matrix x vector"),
+        ("C02_vector_right_no_term", "vecr_local_absent", "matrix x vector without additive term"),
+    ])
+
+TABLE["C01full"] = dict(
+    title="(every built-in operation, every history) reverse mode equals forward mode",
+    imports=CONC + """
+From Corgi Require Import Model.RealScalar Proofs.LocalAdjoint2 Proofs.SweepAdjointG Proofs.FwdCode Proofs.CodeSupport
+     Proofs.HistoryVC Proofs.C01Concrete Proofs.CodeSupport2 Proofs.C01Full Proofs.HistoryPre Proofs.C01History Proofs.C01Real
+     Proofs.LocalAdjoint3 Proofs.C01Gen Proofs.CodeSupport3 Proofs.HistoryPre3 Proofs.C01History3.
+Import ListNotations.""",
+    intro="""The capstone of C01.  [reachable_ok O p s]: s is the state reached by the program p (any sequence of the 27
+instructions: leaves, every public operation, clones, drops, flag changes, passes, clears, updates, the model loop ...)
+whose instructions satisfy the side conditions [seed_ok] (an explicit seed has the result's shape) and [instr_ok]:
+sum(k) with k <= rank, softmax on rank >= 1, matmul operands of rank >= 2 with an additive term of shape [cols],
+[rows; cols], [1; cols], [1] or none, conv filters of rank 4, user closures on equal dimensions, dense/conv layers fed
+inputs their matmul/conv accept.  ([reachable_ok_all] / [instr_ok_all] additionally admit the rank-1 matmul forms the property names:
+vector x matrix, matrix x vector and the dot product of two untransposed vectors.)
+[C01_every_history]: for every such state with empty gradient slots, every root r, seed and leaf tangents:
+     <seed, dual-number tangent of the result> = sum over leaves <gradient stored by backward, leaf tangent>
+with NO hypothesis about the graph: every closure corgi's operations attach (add, mul, div, neg, scale, powf, ln,
+exp, reciprocal, sum, reshape, relu, sigmoid, matmul, unroll, expand, user mul/affine/square - hence sub, axpy,
+softmax, conv, dense and conv layers, mse and cross-entropy) has its local transpose identity and liftability proved
+([C01_all_closures_supported]).  Scalars: a commutative ring with the division / power / sigmoid laws as hypotheses;
+[C01_every_history_reals]: the instance at the real numbers has no scalar hypothesis at all (axioms: the standard
+library's Reals axioms and classic).""",
+    items=[
+        ("C01_every_history_all_forms", "history_backward_exact_all", "reverse = forward for every program history, every built-in operation, matmul in its rank >= 2 AND rank-1 forms (vector x matrix, matrix x vector, dot product)"),
+        ("C01_every_history_all_forms_reals", "history_backward_exact_all_R", "the same over the real numbers, no scalar hypothesis"),
+        ("C01_every_history", "history_backward_exact_full", "the version with rank >= 2 matmul only"),
+        ("C01_every_history_reals", "history_backward_exact_R", "the same over the real numbers, no scalar hypothesis"),
+        ("C01_every_graph", "backward_exact_full", "store-level form: store_good, value_consistent, pre_ok"),
+        ("C01_every_graph_reals", "backward_exact_R", "store-level form over the reals"),
+        ("C01_all_closures_supported", "all_code_ok2", "local identity + liftability for every bop_code"),
+        ("C01_invariants_of_histories", "step_good3", "store_good, value_consistent and the closure side conditions are preserved by every instruction"),
+        ("C01_all_supported", "all_supported", "every reachable state satisfies them"),
     ])
